@@ -383,7 +383,7 @@ class Ctx:
                        shard=shard, flavour=build.flavour, extra={"compile_log": build.log[-6000:]})
 
     # ------------------------------------------------------------ standard shard pipeline
-    def run_shards(self, shards, timeout=900):
+    def run_shards(self, shards, timeout=900, on_compile_fail=None):
         """shards: list of dict(name, src, flavour, defines=(), args=(), env=None, cuda_shim=False,
         is_text=False).  Compiles all, runs all, re-runs hangs once.  Returns list of Run/None."""
         if self.replay_mode and self.replay_mode.get("shard"):
@@ -408,7 +408,8 @@ class Ctx:
         for i, (s, b) in enumerate(zip(shards, builds)):
             if not b.ok:
                 if not any(b.name in h for h in self.harness_errors):
-                    self.compile_failure(b, s["name"])
+                    if not (on_compile_fail and on_compile_fail(s, b)):
+                        self.compile_failure(b, s["name"])
                 continue
             items.append(dict(build=b, args=tuple(s.get("args", ())), env=s.get("env"), timeout=s.get("timeout", timeout),
                               name=s["name"]))
